@@ -13,7 +13,7 @@ HF == IF Tier = "quick" THEN HFq ELSE
       { <<"1">>, <<"0">>, <<"2","5">>, <<"-","1">>, <<"+","5">>, <<"b","1">>, <<"1","b">>,
         <<"1","_","0">>, <<"u">>, <<>>, <<"a">>, <<"1","a">>, <<"_","1">>, <<"1","_">>,
         <<"-">>, <<"1","b","1">>, <<"2","5","6">>, <<"0","0","7">>, <<"g","1">> }
-PL == { <<>>, <<"a">>, <<"b","a">>, <<"a","b">>, <<"1">>, <<"a","r","a">>, <<"a","b","a">>, <<"u","_">> }
+PL == { <<"a","c">>, <<>>, <<"a">>, <<"b","a">>, <<"a","b">>, <<"1">>, <<"a","r","a">>, <<"a","b","a">>, <<"u","_">> }
 TR == { <<>>, <<"n">>, <<"r","n">>, <<"b","n">>, <<"r">>, <<"g","n">> }
 IntVals == {-1, 0, 1, 255, 256, 1000}
 NoMsg == [ok |-> TRUE, h |-> <<0,0,0,0,0>>, p |-> <<>>]
